@@ -9,6 +9,7 @@ package gosqlx
 import (
 	"context"
 	"errors"
+	"github.com/ajitpratap0/GoSQLX/pkg/sql/tokenizer"
 	"time"
 
 	goerrors "github.com/ajitpratap0/GoSQLX/pkg/errors"
@@ -29,6 +30,16 @@ var vxTexts = []string{
 	"UPDATE t SET a = 1 ; SELECT FROM ; SELECT 2",
 	"SELECT a /* c */ FROM t -- x",
 	"select \"q\" from t where a in (1,2) order by a desc limit 3",
+	"\xef\xbb\xbfSELECT a FROM t", // byte-order mark in front of a valid statement
+	"\xef\xbb\xbfSELECT FROM",     // ... and of an invalid one
+	"SELECT a\r\nFROM t\r\n",      // CRLF
+	"SHOW TABLES",                 // statement kinds whose first word is not a clause keyword
+	"DESCRIBE t",
+	"EXPLAIN SELECT a FROM t",
+	"REPLACE INTO t ( a ) VALUES ( 1 )",
+	"TRUNCATE TABLE t ; SHOW TABLES",
+	"",
+	"   ",
 }
 
 func vxCode(err error) string {
@@ -188,4 +199,46 @@ func VxC01_Sizes() {
 	_, _ = Format(sql, DefaultFormatOptions())
 	_, _ = ParseWithRecovery(sql)
 	vx.Assert("C01.size_returns", true)
+}
+
+// ---- C11 at the convenience layer: ParseWithContext under a context that turns done at its k-th
+// poll (k symbolic; polls happen at the wrapper's entry, in TokenizeContext and in ParseContext):
+// a cancelled call reports the context's error and no tree; no pooled object is released twice
+// (engine-side pool monitor); the pools then hand out distinct objects to two holders.
+
+type vxCountCtx struct {
+	context.Context
+	k, n int
+}
+
+func (c *vxCountCtx) Err() error {
+	c.n++
+	if c.n > c.k {
+		return context.Canceled
+	}
+	return nil
+}
+
+func (c *vxCountCtx) Done() <-chan struct{} { return nil }
+
+func VxC11_Wrap() {
+	sql := []string{"SELECT a FROM t", "SELECT a , b FROM t WHERE a IN ( 1 , 2 ) ; DELETE FROM u", "SELECT 'open"}[vx.Choice(3)]
+	ctx := &vxCountCtx{Context: context.Background(), k: vx.Choice(15)}
+	vx.Notef("sql=%q cancel at poll %d", sql, ctx.k)
+	tree, err := ParseWithContext(ctx, sql)
+	observed := ctx.n > ctx.k
+	vx.Notef("polls=%d observed=%v ok=%v", ctx.n, observed, err == nil)
+	if observed && err != nil {
+		_, plain := Parse(sql)
+		if plain == nil {
+			vx.Assertf("C11.wrap_is_ctx_err", errors.Is(err, context.Canceled), "cancelled ParseWithContext returns %v", err)
+		}
+		vx.Assertf("C11.wrap_no_tree", tree == nil, "a failed ParseWithContext returns a tree")
+	}
+	// two holders at once get two objects
+	t1 := tokenizer.GetTokenizer()
+	t2 := tokenizer.GetTokenizer()
+	vx.Assertf("C11.wrap_distinct_pooled", !vx.SameObject(t1, t2), "the tokenizer pool hands the same instance to two holders")
+	tokenizer.PutTokenizer(t1)
+	tokenizer.PutTokenizer(t2)
 }
